@@ -683,8 +683,11 @@ Definition good (r : rec) (o : rop Nm) : Prop :=
           (forall d, ignore_or_compatible (DTensor (mkT d (N (rg r) :: oshape ob) [])) (all_cons r) (rstrict r) = true) /\
           (rstrict r = true \/ forall dd s, In (dd, s) (rcons r) -> pyidx (S (length (oshape ob))) dd <> 0)
       end
-  | RRing _ (OpRead _) | RRing _ OpPeek | RRing _ (OpIncr _) | RRing _ (OpDecr _) => True
-  | RRing _ _ => False
+  | RRing _ (OpWrite ob _ _) => obs_wf ob
+  | RRing _ (OpRead _) | RRing _ OpPeek | RRing _ OpPop | RRing _ (OpIncr _) | RRing _ (OpDecr _)
+  | RRing _ (OpAlign _) | RRing _ (OpReset _)
+  | RRing _ (OpReadRangeS _ _ _) | RRing _ (OpReadRangeT _ _ _ _) => True
+  | RRing _ _ => False   (* range writes: not covered by the invariant theorem *)
   | RSetDt _ _ | RSetDur _ _ | RSetIncl _ _ => True
   | RRecon _ dim _ =>
       rstrict r = true \/
@@ -769,6 +772,24 @@ Proof.
     rewrite map_length, Ho, Esh. reflexivity.
 Qed.
 
+Lemma align_inv (r : rec) i : Inv r ->
+  Inv (fst (fst match align (rg r) i with
+                | Ok g out => (set_rg Nm r g, @None xerr, Some out)
+                | Err e => (r, Some (xerr_of e), None)
+                end)).
+Proof.
+  intros HI. pose proof HI as ((Hw & Hu & Hnd & Hp0) & _).
+  unfold align. destruct ((0 <=? i)%Z && (i <? Z.of_nat (N (rg r)))%Z) eqn:Ei; cbn [negb fst]; [|exact HI].
+  destruct (st (rg r)) as [| |d sh rws] eqn:Es; cbn [fst]; try exact HI.
+  pose proof Hw as (Hn & Hp & Hl). rewrite Es in Hl.
+  apply ring_change_inv; [exact HI| | | | |]; cbn [N ptr st].
+  - unfold wf. cbn [N ptr st]. rewrite roll_length. repeat split; auto. lia.
+  - unfold rows_uniform in *. cbn [st]. rewrite Es in Hu. apply roll_uniform. exact Hu.
+  - reflexivity.
+  - intros Hnf. exfalso. apply Hnf. exact I.
+  - rewrite Es. reflexivity.
+Qed.
+
 Theorem rstep_inv (r : rec) (o : rop Nm) : Inv r -> good r o -> Inv (fst (fst (rstep r o))).
 Proof.
   intros HI Hg. pose proof HI as (Hwf & Hv & Hna & (Ht1 & Ht2) & Hsz). pose proof Hwf as (Hw & Hu & Hnd & Hp0).
@@ -782,10 +803,36 @@ Proof.
       apply ring_change_inv; [exact HI|exact Hw'|exact Hu'|exact HN'| |].
       * intros Hnf. exfalso. apply Hnf. unfold full. rewrite Es'. exact I.
       * rewrite Es'. destruct (st (rg r)); auto; destruct Hg as [Hg1 Hg2]; split; auto.
+    + (* pop *)
+      unfold pop. destruct (st (rg r)) as [| |d sh rws] eqn:Es; cbn [fst];
+        [destruct r as [[n p s] ? ? ? ? ? ? ?]; exact HI|destruct r as [[n p s] ? ? ? ? ? ? ?]; exact HI|].
+      unfold decr. rewrite Es. unfold read. cbn [set_ptr st]. rewrite Es. cbn [fst].
+      apply ring_change_inv; [exact HI| | | | |].
+      * destruct Hw as (Hn & _ & Hl). unfold wf, set_ptr. cbn [N ptr st]. rewrite Es in *. repeat split; auto.
+        unfold unwind, _unwind_ptr. lia.
+      * unfold rows_uniform, set_ptr in *. cbn [st]. exact Hu.
+      * reflexivity.
+      * intros Hnf. exfalso. apply Hnf. unfold full, set_ptr. cbn [st]. rewrite Es. exact I.
+      * unfold set_ptr. cbn [st]. rewrite Es. reflexivity.
     + (* peek *)
       unfold peek, read. destruct (st (rg r)); cbn [fst]; first [exact HI|destruct r as [[n p s] ? ? ? ? ? ? ?]; exact HI].
     + (* read *)
       unfold read. destruct (st (rg r)); cbn [fst]; first [exact HI|destruct r as [[n p s] ? ? ? ? ? ? ?]; exact HI].
+    + (* write *)
+      unfold write. destruct (st (rg r)) as [| |d sh rws] eqn:Es; cbn [fst]; try exact HI.
+      destruct (shape_eqb (oshape o) sh) eqn:Esh; cbn [negb fst]; [|exact HI].
+      apply shape_eqb_eq in Esh. pose proof Hw as (Hn & Hp & Hl). rewrite Es in Hl.
+      assert (Hi : idx (rg r) off < length rws) by (rewrite Hl; unfold idx, unwind, _unwind_ptr; lia).
+      rewrite (splice_is_upd rws _ (map (cast d) (oel o)) Hi).
+      assert (E2 : forall g, (if inplace then Ok g (@OUnit A D) else Ok g OUnit) = Ok g OUnit) by (intros; destruct inplace; reflexivity).
+      rewrite E2. cbn [fst].
+      apply ring_change_inv; [exact HI| | | | |]; unfold set_st; cbn [N ptr st].
+      * unfold wf. cbn [N ptr st]. rewrite upd_length'. auto.
+      * unfold rows_uniform in *. cbn [st]. rewrite Es in Hu. apply uniform_upd; [exact Hu|].
+        rewrite map_length, Hg, Esh. reflexivity.
+      * reflexivity.
+      * intros Hnf. exfalso. apply Hnf. exact I.
+      * rewrite Es. reflexivity.
     + (* incr *)
       unfold incr. destruct (st (rg r)) as [| |d sh rws] eqn:Es; cbn [fst]; try exact HI.
       apply ring_change_inv; [exact HI| | | | |].
@@ -804,6 +851,36 @@ Proof.
       * reflexivity.
       * intros Hnf. exfalso. apply Hnf. unfold full, set_ptr. cbn [st]. rewrite Es. exact I.
       * unfold set_ptr. cbn [st]. rewrite Es. reflexivity.
+    + (* align *)
+      apply align_inv. exact HI.
+    + (* reset *)
+      destruct fill as [f|]; [|apply align_inv; exact HI].
+      unfold reset. destruct (st (rg r)) as [| |d sh rws] eqn:Es; cbn [fst].
+      * apply ring_change_inv; [exact HI| | | | |]; cbn [N ptr st].
+        -- destruct Hw as (Hn & _). unfold wf. cbn [N ptr st]. auto.
+        -- exact I.
+        -- reflexivity.
+        -- reflexivity.
+        -- rewrite Es. exact I.
+      * apply ring_change_inv; [exact HI| | | | |]; cbn [N ptr st].
+        -- destruct Hw as (Hn & _). unfold wf. cbn [N ptr st]. auto.
+        -- exact I.
+        -- reflexivity.
+        -- reflexivity.
+        -- rewrite Es. exact I.
+      * pose proof Hw as (Hn & Hp & Hl). rewrite Es in Hl.
+        apply ring_change_inv; [exact HI| | | | |]; cbn [N ptr st].
+        -- unfold wf. cbn [N ptr st]. rewrite map_length. auto.
+        -- unfold rows_uniform in *. cbn [st]. rewrite Es in Hu. eapply uniform_map; [|exact Hu].
+           intros row Hrow. rewrite map_length. exact Hrow.
+        -- reflexivity.
+        -- intros Hnf. exfalso. apply Hnf. exact I.
+        -- rewrite Es. reflexivity.
+    + (* readrange, scalar offset *)
+      unfold readrange_scalar. destruct (st (rg r)); cbn [fst]; first [exact HI|destruct r as [[n p s] ? ? ? ? ? ? ?]; exact HI].
+    + (* readrange, tensor offsets *)
+      unfold readrange_tensor. destruct (st (rg r)); cbn [fst]; try exact HI.
+      destruct (negb _); cbn [fst]; first [exact HI|destruct r as [[n p s] ? ? ? ? ? ? ?]; exact HI].
   - (* dt *)
     destruct (gtb Nm v (zero Nm)) eqn:Ev.
     + destruct (setter_spec r (SetDt v) Hwf Hv Hna Ev) as (r' & Hr & H1 & H2 & H3 & H4 & H5 & H6 & H7 & _).
